@@ -33,7 +33,7 @@ Definition ss_flat_validator (v : ss_validator) : list Z := [vl_id v; vl_stake v
 
 Definition ss_flat_assigner (s : ss_state) (k : Z) : list Z :=
   match ss_find_assigner k (st_assigners s) with
-  | Some a => [1; as_indiv a; as_total a; as_redeemed a; Z.of_nat (length (as_nonces a))] ++ as_nonces a
+  | Some a => [1; as_indiv a; as_total a; as_redeemed a; as_key a; Z.of_nat (length (as_nonces a))] ++ as_nonces a
   | None => [0]
   end.
 
